@@ -49,6 +49,9 @@ func prefix(c *evid.Case, env *qsim.Env, seed int64) (*qsim.Cluster, qsim.Config
 	cfg := qrun.GenConfig(rng, c.Tier)
 	if cfg.N > 7 && rng.Intn(2) == 0 {
 		cfg.N = 7
+		if f := (cfg.N - 1) / 3; cfg.NumByz > f { // the thorough tier draws committees up to 13: keep <= f faulty for the new size
+			cfg.NumByz = f
+		}
 	}
 	cfg.MaxSteps = rng.Intn(90 * cfg.N) // any prefix length, so intermediate states are sampled too
 	directed := rng.Intn(5) == 0
@@ -280,7 +283,7 @@ func runContinuation(c *evid.Case) {
 			accepted, distinctPrepared := roundChangesAccepted(cl)
 			if !accepted {
 				sig += "/round-changes-of-correct-operators-not-accepted"
-			} else if len(pv) >= 2 && distinctPrepared {
+			} else if distinctPrepared { // possibly reached only during the continuation (a value prepared after the cut)
 				sig = "correct-operators-prepared-on-distinct-values"
 			} else if cfg.RunnerCompaction && decidedAtCut > 0 && undecidedAtCut > cl.F {
 				// more than f operators are undecided (enough for a partial quorum), but the decided ones compact their instance on
